@@ -473,7 +473,7 @@ void Process::exit(uint32 exitCode)
 #ifdef _WIN32
   ExitProcess(exitCode);
 #else
-  _exit(0);
+  _exit((int)exitCode);
 #endif
 }
 
@@ -892,9 +892,11 @@ ssize Process::read(void* buffer, usize length, uint& streams)
     errno = EINVAL;
     return -1;
   }
-  timeval tv = {1000, 0};
+  const fd_set fdAll = fdr;
   for(;;)
   {
+    fdr = fdAll; // select() modifies the set and the timeout: arm both again for every attempt
+    timeval tv = {1000, 0};
     int i = select(maxFd + 1, &fdr, 0, 0, &tv);
     if(i == 0)
       continue;
